@@ -500,15 +500,20 @@ def _check(ctx, prop, tier, cfg, tcfg, seed, params, known, t_start):
             reported.append({'sig': sig, 'known': True, 'count': len(occ)})
             continue
         confirmed = None
-        for o in prim[:6]:
-            tape = o.get('tape')
-            if tape is None:
-                tape, sig2, err = stream_tape_for_seed(ctx, o['binary'], prop, tier, seed, o['run'], o['params'], o['env'])
-            else:
-                sig2, _, _ = run_tape(ctx, o['binary'], prop, tier, seed, o['run'], o['params'], tape, o['env'])
-            if sig2 == sig:
-                o['tape'] = tape
-                confirmed = o
+        # a violation must recur from its own tape in a fresh process; a few attempts are allowed because
+        # changed code can itself introduce choices the simulator does not own (e.g. a select with two ready cases)
+        for attempt in range(3):
+            for o in prim[:6]:
+                tape = o.get('tape')
+                if tape is None:
+                    tape, sig2, err = stream_tape_for_seed(ctx, o['binary'], prop, tier, seed, o['run'], o['params'], o['env'])
+                else:
+                    sig2, _, _ = run_tape(ctx, o['binary'], prop, tier, seed, o['run'], o['params'], tape, o['env'])
+                if sig2 == sig:
+                    o['tape'] = tape
+                    confirmed = o
+                    break
+            if confirmed is not None:
                 break
         if confirmed is None:
             # seen inside a batch process but never alone in a fresh process: not replayable,
